@@ -55,7 +55,8 @@ def main():
         for p in checks:
             rc, out = sh(f"./check {p} --tier quick", cwd=VERIF, env=env2)
             vio = [l[:300] for l in out.splitlines() if l.startswith("VIOLATION")]
-            det[p] = {"exit": rc, "violations": vio[:3]}
+            prf = [l[:260] for l in out.splitlines() if l.startswith(("FAILED-OBLIGATION", "UNDECIDED property")) or "no-failing-input-found" in l]
+            det[p] = {"exit": rc, "violations": vio[:3], "proof_part": prf[:3]}
     finally:
         sh(f"git -C /repo worktree remove --force {wt}")
         shutil.rmtree(wt, ignore_errors=True)
